@@ -926,9 +926,37 @@ def default_datetime_oracle(ctx: Ctx, impl: Impl):
                       payload(v, calls))
 
 
+def formatter_identity_observable(spy: "Spy") -> bool:
+    """the streams below record WHICH formatter the real code calls by wrapping the module-level functions of cell.py in
+    process.  A refactoring that binds those functions elsewhere at import time (a dispatch table, say) bypasses the
+    wrappers although nothing a caller can observe has changed: a number cell with a decimal, a currency, a base and a
+    scientific format is displayed once; if a wrapper that must fire does not, the identity of the formatter is not
+    observable in this tree and the formatter-identity streams are skipped (the text-level streams of c13.py / c14.py and
+    every property oracle still run)."""
+    from numbers_parser import Document
+    doc = Document(num_header_rows=0, num_header_cols=0, num_rows=2, num_cols=2)
+    table = doc.sheets[0].tables[0]
+    for name, kw, tag in (("number", {"decimal_places": 1}, "format_decimal"), ("currency", {"currency_code": "EUR"}, "format_currency"),
+                          ("base", {"base": 2}, "format_base"), ("scientific", {"decimal_places": 1}, "format_scientific")):
+        table.write(0, 0, 5.0)
+        table.set_cell_formatting(0, 0, name, **kw)
+        if f"fm={tag} " not in spy.display(table.cell(0, 0)) + " ":
+            return False
+    return True
+
+
+def _skip_note(ctx: Ctx, tag: str):
+    ctx.notes.append(f"glue[{tag}]: the module-level formatter functions of cell.py are not reached through their module "
+                     "attributes in this tree (wrappers do not fire on a calibration cell): formatter-identity streams skipped; "
+                     "displayed texts are still compared by the other streams and judged by the property oracles")
+
+
 def run_c13(ctx: Ctx, c13):
     names = [n for n in ALL_NAMES if n != "datetime"]
     with Spy() as spy:
+        if not formatter_identity_observable(spy):
+            _skip_note(ctx, "C13")
+            return
         impl = Impl(spy)
         run_set_display(ctx, c13, impl, names, "C13")
         run_reformat(ctx, impl, names, "C13")
@@ -938,6 +966,9 @@ def run_c13(ctx: Ctx, c13):
 
 def run_c14(ctx: Ctx):
     with Spy() as spy:
+        if not formatter_identity_observable(spy):
+            _skip_note(ctx, "C14")
+            return
         impl = Impl(spy)
         default_datetime_oracle(ctx, impl)
         run_set_display(ctx, None, impl, ["datetime"], "C14")
